@@ -152,7 +152,7 @@ pub fn run(ctx: &Ctx) {
          without a session). Non-trivial = the error is not on the first line and an earlier line would mutate state. Distinct = case JSON.",
     );
     ctx.assume("'fails to parse' is decided by the engine's own statement parser on the broken line (the property is conditional on it)");
-    ctx.run_part("syntax_error_injection", ctx.cases(600, 15_000), strategy, |c, o| check(ctx, c, o));
+    ctx.run_part("syntax_error_injection", ctx.cases(4000, 60_000), strategy, |c, o| check(ctx, c, o));
 }
 
 pub fn replay(ctx: &Ctx, part: &str, case: &J) -> Option<Result<CheckResult, String>> {
